@@ -66,6 +66,8 @@ type stats struct {
 	currentSlotReplaced int
 	headEvents          int
 	crossEpochLate      int
+	slowNode            bool
+	straddled           int
 	refetches           int
 }
 
@@ -227,6 +229,9 @@ func (j *judge) consume() []finding {
 			}
 			k := fkey{f.Kind, f.Epoch}
 			j.latest[k] = &f
+			if f.ReqClockSlot != f.ClockSlot {
+				j.st.straddled++
+			}
 			if f.Err {
 				j.st.providerErrors++
 			} else {
@@ -254,6 +259,18 @@ func (j *judge) consume() []finding {
 			}
 			if o.Op != "schedule" || o.Err != "" {
 				continue
+			}
+			// J1 at the moment the job is created: "one job per duty slot that has not yet passed";
+			// for duties requested by a start that did not wait for genesis "only strictly later slots".
+			if o.Kind == c03world.KAttest || o.Kind == c03world.KPropose || o.Kind == c03world.KEarlyPropose || o.Kind == c03world.KSyncPrepare {
+				kind := map[c03world.Kind]string{c03world.KAttest: "att", c03world.KPropose: "prop", c03world.KEarlyPropose: "prop", c03world.KSyncPrepare: "sync"}[o.Kind]
+				if o.Slot < o.ClockSlot {
+					out = append(out, finding{"job-created-for-passed-slot:" + kind, fmt.Sprintf("job %q created when the clock was already in slot %d", o.Name, o.ClockSlot)})
+				} else if o.Slot == o.ClockSlot && !j.waited && kind != "sync" {
+					if h := j.okHist[fkey{kind, o.Slot / j.spe()}]; len(h) > 0 && h[len(h)-1].ReqPhase == "start" {
+						out = append(out, finding{"job-created-for-current-slot-after-restart:" + kind, fmt.Sprintf("job %q created at clock slot %d from duties requested by a start (in slot %d) that did not wait for genesis", o.Name, o.ClockSlot, h[len(h)-1].ReqClockSlot)})
+					}
+				}
 			}
 			// J2: job time = start of the slot + the configured delay of the class.
 			if d, ok := j.delayOf(o.Kind); ok {
@@ -416,6 +433,9 @@ func (j *judge) invariants(final bool) []finding {
 		if r.Err || (k.kind != "att" && k.kind != "prop") {
 			continue
 		}
+		if j.w.Node.Outstanding(k.kind, k.epoch) {
+			continue // a newer request is waiting for the (slow) node; its answer decides
+		}
 		var slots []uint64
 		if k.kind == "att" {
 			for s := range j.expectedAtt(r) {
@@ -435,19 +455,22 @@ func (j *judge) invariants(final bool) []finding {
 			must := N > r.ClockSlot
 			why := "a later slot"
 			sig := "duty-without-job:" + k.kind
-			if N == r.ClockSlot {
+			if N == r.ClockSlot && r.ReqClockSlot != r.ClockSlot {
+				// the slot began while the node was answering: it may or may not get a job
+				must = false
+			} else if N == r.ClockSlot {
 				switch {
-				case r.Phase == "start":
+				case r.ReqPhase == "start":
 					// at genesis (having waited for it) slot 0 has not passed and nothing was signed
 					must = j.waited
 					why = "the current slot at a start that waited for genesis"
 					sig = "genesis-start-skips-current-slot:" + k.kind
-				case r.Phase == "advance":
+				case r.ReqPhase == "advance":
 					// obtained by a ticker at the beginning of the slot: it has not passed
 					must = true
 					why = "the current slot, obtained by the epoch ticker"
 					sig = "ticker-skips-current-slot:" + k.kind
-				case r.Phase == "head" && k.kind == "att":
+				case r.ReqPhase == "head" && r.Phase == "head" && k.kind == "att":
 					// a not-yet-run job of the affected epoch is replaced
 					_, had := j.actionJobs[fmt.Sprintf("Attestations for slot %d", N)]
 					must = had && r.Action == j.actionNo
@@ -473,7 +496,7 @@ func (j *judge) invariants(final bool) []finding {
 	}
 	// J6: duties of the current epoch have been requested
 	ce := j.w.Epoch()
-	if len(j.c.P.Validators) > 0 {
+	if len(j.c.P.Validators) > 0 && j.w.Node.Held() == 0 {
 		if j.latest[fkey{"att", ce}] == nil {
 			out = append(out, finding{"attester-duties-not-requested", fmt.Sprintf("clock is in epoch %d and the process (started in slot %d) never requested its attester duties", ce, j.startSlt)})
 		}
@@ -533,6 +556,9 @@ func (j *judge) afterHead(h *c03world.HeadRec) []finding {
 		}
 		if lr := j.latest[k]; lr != nil && lr.Seq > h.Seq && lr.Seq <= h.EndSeq {
 			refetched = true
+		}
+		if !refetched && j.w.Node.Outstanding(k.kind, k.epoch) {
+			continue // requested again; the node has not answered yet
 		}
 		if old == nil {
 			continue
